@@ -5,6 +5,18 @@ HERE = os.path.dirname(os.path.dirname(os.path.abspath(__file__)))
 ALL = ["C%02d" % i for i in range(1, 21)]
 # id -> (technique, level text, level note, design ref)
 CHECKS = {
+ "C17": ("bounded-exhaustive enumeration of re-framings of a protocol-conforming server's payload against the real client (forced boundary, uniform size, info/empty/error frames at every payload offset), reference decoding of every frame recorded from the real server, and scheduler-controlled exploration of the error-frame/first-error-wins race",
+         "listing-only and small-tree sessions re-framed with a boundary at every payload offset, every uniform frame size, 1/100/1000 info frames, empty data frames and an error frame at every offset; a 600 KiB file with frame sizes around the 256 KiB buffer; all frames of 30 real server sessions validated and decoded; error frame + server exit explored with <=1 schedule deviation at 5 capacity pairs",
+         "payload producer is the reference sender; frames of a live server cannot be merged across its wait points; two known findings (frames > 256 KiB rejected, message lost when a write failure wins the race)",
+         "DESIGN.md §5 C17"),
+ "C05": ("bounded-exhaustive enumeration of hostile file lists (escape vector x entry type x options x destination state x receiver role x solicited/unsolicited data) sent by a scripted sender to the real receiver; full before/after snapshot of everything around the destination plus information-flow checks",
+         "11 escape vectors (dot-dot forms, absolute, pre-existing relative/absolute directory symlinks, pre-existing file symlink, symlink sent earlier in the same list, '..' itself) x 7 entry types x {-a,-rlD,-a --delete} x {empty, populated} x {pulling client, writable daemon module}, with file data also pushed unsolicited, and 11 hostile sub-directory arguments of daemon uploads: the surrounding canary area (content, mode, owner, ns mtime, targets, entry set) must be bit-identical and no canary block checksum or byte may appear in requests or destination files",
+         "runs as root so that misdirected chown/mknod would succeed; relative escapes are caught by running each case with the destination as working directory; single-call regressions that another os.Root-guarded call in the same path shields are not observable (defence in depth)",
+         "DESIGN.md §5 C05"),
+ "C06": ("bounded-exhaustive enumeration of request paths from a traversal grammar x options x module kinds against the real daemon with a scripted receiving client that also requests every index; raw stream scan for outside markers plus entry-by-entry comparison with the inside inventory",
+         "all paths [mod|m|module|''](/comp){0..3} over 10 components (thorough depth 4) plus odd forms x {-r,-rl,-rc,-rlc} x {directory, MapFS, os.Root.FS()} modules with prefix-related names (~29k sessions quick): no outside content, name or mtime in the server's bytes, every listed entry matches an inside object, every served byte sequence is an inside file",
+         "outside objects are recognisable by unique names/contents/mtimes; link target text of an inside symlink is inside data",
+         "DESIGN.md §5 C06"),
  "C04": ("stateless model checking under the controlled transport scheduler: a destination-state invariant evaluated at every scheduling point of every execution within the deviation bound, and a connection cut injected at every scheduling point; plus a kernel (inotify) event-trace monitor for the instants between transport operations",
          "library pull, daemon pull and daemon upload of a multi-file tree (new file, delta-replaced file, replaced file, replaced symlink, new symlink) at capacities inf, 7 (receiver frozen every 7 bytes) and 0 with <=1 (thorough <=2) deviations: every listed path holds complete old or complete new content at ~2 million observed states, cutting the connection at each of ~3400 points never yields success with an incomplete destination, and no temp file survives the return of both ends; the inotify trace of all 5 arrangements shows rename-into-place only",
          "crash/kill instants are modelled by freezing the receiver at transport gates plus the inotify trace (no in-place event on a listed name means every intermediate on-disk state is old-or-new); power-loss durability (fsync ordering) is not examined",
